@@ -5,6 +5,7 @@ import (
 	"encoding/json"
 	"fmt"
 	"os"
+	"path/filepath"
 	"strings"
 	"sync"
 	"testing"
@@ -39,16 +40,20 @@ func histInv(s *ss.State) (string, string) {
 	w, ok := histCache[s.Obs]
 	histMu.Unlock()
 	if !ok {
-		lin, why := raftkvs.CheckHistory(s.Obs)
+		lin, class, why := raftkvs.CheckHistory(s.Obs)
 		if !lin {
-			w = why
+			w = class + "\x00" + why
 		}
 		histMu.Lock()
 		histCache[s.Obs] = w
 		histMu.Unlock()
 	}
 	if w != "" {
-		return "linearizability/" + shape(s.Obs), w
+		class, why, _ := strings.Cut(w, "\x00")
+		if class != "" {
+			return "linearizability/" + class, why
+		}
+		return "linearizability/" + shape(s.Obs), why
 	}
 	return "", ""
 }
@@ -59,6 +64,9 @@ func shape(obs string) string {
 	var parts []string
 	for _, e := range strings.Split(strings.TrimSuffix(obs, ";"), ";") {
 		f := strings.Split(e, ":")
+		if f[0] == "s" {
+			continue
+		}
 		if f[0] == "i" {
 			parts = append(parts, fmt.Sprintf("c%s.%s(%s,%s)", f[1], f[3], f[4], f[5]))
 		} else {
@@ -112,11 +120,41 @@ func TestCheck(t *testing.T) {
 				t.Fatal(err)
 			}
 		}
+		// committed witnesses of recorded findings are replayed first (deterministic, cheap): while the
+		// defect is present the finding shows on every run, whatever depth the search reaches in its budget
+		seen := map[string]bool{}
+		witnessReplayed := 0
+		if files, _ := filepath.Glob(filepath.Join(os.Getenv("VERIF_DIR"), "replays", "C09", "known-*.json")); len(files) > 0 {
+			for _, f := range files {
+				b, err := os.ReadFile(f)
+				if err != nil {
+					continue
+				}
+				var w struct {
+					Replay replay `json:"replay"`
+				}
+				if json.Unmarshal(b, &w) != nil {
+					continue
+				}
+				func() {
+					defer func() { recover() }() // a witness that no longer fits the code is simply stale
+					sys := raftkvs.New(w.Replay.Cfg.Config)
+					sys.Observe = raftkvs.ObserveHistory
+					states, _, _ := sys.Replay(w.Replay.Path)
+					witnessReplayed++
+					for _, s := range states {
+						if k, why := histInv(s); k != "" && !seen[k] {
+							seen[k] = true
+							res.Violations = append(res.Violations, hres.Viol{Key: k, What: why, Replay: w.Replay})
+						}
+					}
+				}()
+			}
+		}
 		share := time.Until(env.Deadline) / time.Duration(len(cfgs)+1)
 		var states, trans, validated int64
 		exhaustive := true
 		per := []any{}
-		seen := map[string]bool{}
 		var samples []any
 		for _, cfg := range cfgs {
 			sys := raftkvs.New(cfg.Config)
@@ -162,7 +200,7 @@ func TestCheck(t *testing.T) {
 			}
 		}
 		res.Coverage = map[string]any{"states": states, "transitions": trans, "traces_validated_against_impl": validated, "samples": samples, "configs": per, "exhaustive": exhaustive,
-			"distinct_histories_checked": len(histCache)}
+			"distinct_histories_checked": len(histCache), "known_witness_paths_replayed": witnessReplayed}
 		return res
 	})
 }
